@@ -3,8 +3,8 @@ package exec
 import (
 	"fmt"
 	"go/constant"
-	"math"
 	"go/types"
+	"math"
 	"strconv"
 	"strings"
 
@@ -513,10 +513,10 @@ func init() {
 			c.ret(smt.False)
 		},
 		"(*net/http.Request).UserAgent": func(c *stubCtx) { c.ret(mkStr("")) },
-		"(net/http.Header).Set":          func(c *stubCtx) { c.ret(nil) },
-		"(net/http.Header).Get":          func(c *stubCtx) { c.ret(mkStr("")) },
-		"(net/http.Header).Add":          func(c *stubCtx) { c.ret(nil) },
-		"(net/http.Header).Del":          func(c *stubCtx) { c.ret(nil) },
+		"(net/http.Header).Set":         func(c *stubCtx) { c.ret(nil) },
+		"(net/http.Header).Get":         func(c *stubCtx) { c.ret(mkStr("")) },
+		"(net/http.Header).Add":         func(c *stubCtx) { c.ret(nil) },
+		"(net/http.Header).Del":         func(c *stubCtx) { c.ret(nil) },
 		"verifLastMarshal": func(c *stubCtx) {
 			if c.m.lastMarshal == nil {
 				c.ret(Iface{})
@@ -540,12 +540,12 @@ func init() {
 		"(*nhooyr.io/websocket.Conn).Reader": func(c *stubCtx) {
 			c.ret(Tuple{smt.BV(64, 0), Iface{}, c.m.mkError(mkStr("verif: no message (websocket reads are not modelled)"))})
 		},
-		"(*nhooyr.io/websocket.Conn).Close":  func(c *stubCtx) { c.ret(Iface{}) },
-		"nhooyr.io/websocket.CloseStatus":    func(c *stubCtx) { c.ret(smt.BV(64, ^uint64(0))) },
-		"context.Background":                 func(c *stubCtx) { c.ret(Iface{T: c.m.P.errType, V: Ptr{}}) },
-		"(*net/http.Request).Context":        func(c *stubCtx) { c.ret(Iface{T: c.m.P.errType, V: Ptr{}}) },
-		"(*net/url.URL).String":              func(c *stubCtx) { c.ret(mkStr("ws://verif.invalid/")) },
-		"internal/abi.NoEscape": func(c *stubCtx) { c.ret(c.args[0]) },
+		"(*nhooyr.io/websocket.Conn).Close": func(c *stubCtx) { c.ret(Iface{}) },
+		"nhooyr.io/websocket.CloseStatus":   func(c *stubCtx) { c.ret(smt.BV(64, ^uint64(0))) },
+		"context.Background":                func(c *stubCtx) { c.ret(Iface{T: c.m.P.errType, V: Ptr{}}) },
+		"(*net/http.Request).Context":       func(c *stubCtx) { c.ret(Iface{T: c.m.P.errType, V: Ptr{}}) },
+		"(*net/url.URL).String":             func(c *stubCtx) { c.ret(mkStr("ws://verif.invalid/")) },
+		"internal/abi.NoEscape":             func(c *stubCtx) { c.ret(c.args[0]) },
 		// the network dial of the client is cut: it fails for the first n calls the harness planned, then hands out the
 		// harness's socket (verifDialPlan)
 		"github.com/karagenc/socket.io-go/engine.io.Dial": func(c *stubCtx) {
